@@ -101,6 +101,31 @@ fn scoped_seq(roots: &Roots, doc: &yrs::Doc) -> String {
     format!("{} {}", seq_only(&yrs::Out::YText(roots.t.clone()), &txn), seq_only(&yrs::Out::YXmlFragment(roots.x.clone()), &txn))
 }
 
+/// True if some map chain (map entries / XML attributes of a live scoped type) ends in a deleted, not redone entry that has
+/// an older deleted entry to its left: the state in which the conflict rule of `redo` refuses to restore the older one.
+fn shadowed_chain(roots: &Roots, doc: &yrs::Doc) -> bool {
+    let txn = doc.transact();
+    for (h, _) in live_types(roots, &txn) {
+        for k in 0..6u8 {
+            for key in [crate::ops::key_name(k), format!("x{}", k)] {
+                if let Some(chain) = yrs::verif::map_chain(&txn, &h.id(), &key) {
+                    // the hook lists the chain from its newest (rightmost) entry leftwards
+                    if chain.len() >= 2 && chain[0].deleted && chain[0].redone.is_none() && chain[1..].iter().any(|b| b.deleted) {
+                        return true;
+                    }
+                }
+            }
+        }
+    }
+    false
+}
+
+/// True if the store holds a nested shared type that undo/redo has re-created (an item with type content and a `redone` link).
+fn restored_container(doc: &yrs::Doc) -> bool {
+    let txn = doc.transact();
+    yrs::verif::store_blocks(&txn).iter().any(|b| b.kind == 0 && b.content == 7 && b.redone.is_some())
+}
+
 fn unscoped(roots: &Roots, doc: &yrs::Doc) -> String {
     let txn = doc.transact();
     let items = yrs::verif::branch_items(&txn, &Handle::Array(roots.a.clone()).id()).unwrap_or_default();
@@ -362,7 +387,29 @@ pub fn run_undo(prog: &UProgram) -> UResult {
                         // away a non-empty redo stack (the conflict rule of redo then refuses map
                         // entries whose newer values were removed by the discarded steps)
                         let want_seq = if is_undo { &e.before_seq } else { &e.after_seq };
-                        let sub = if &scoped_seq(&roots, &doc) == want_seq && redo_cleared_nonempty { ":map-entry-after-discarded-redo" } else { "" };
+                        if crate::util::debug() {
+                            let txn = doc.transact();
+                            let mut bl = yrs::verif::store_blocks(&txn);
+                            bl.sort_by_key(|b| (b.id.client, b.id.clock));
+                            for b in &bl {
+                                eprintln!("   {}:{}+{} k{} c{} del{} keep{} o{:?} r{:?} p{:?} redone{:?} {}", b.id.client, b.id.clock, b.len, b.kind, b.content, b.deleted, b.keep, b.origin.map(|i| (i.client.get(), i.clock)), b.right_origin.map(|i| (i.client.get(), i.clock)), b.parent, b.redone.map(|i| (i.client.get(), i.clock)), b.text);
+                            }
+                        }
+                        let only_maps = &scoped_seq(&roots, &doc) == want_seq;
+                        let sub = if only_maps && redo_cleared_nonempty {
+                            ":map-entry-after-discarded-redo"
+                        } else if only_maps && shadowed_chain(&roots, &doc) {
+                            // second sub-population of the same conflict rule: the entry to restore has a newer entry to its
+                            // right on the key's chain that this undo step did not delete itself (a later tracked step wrote
+                            // and removed the key again); redo then refuses the entry, as Yjs does
+                            ":map-entry-shadowed-by-newer-deleted-entry"
+                        } else if restored_container(&doc) {
+                            // third sub-population: a nested type was removed and brought back by undo/redo (a re-created copy),
+                            // and steps captured inside the old or the new copy are undone / redone afterwards
+                            ":content-of-restored-container"
+                        } else {
+                            ""
+                        };
                         fail!(format!("{}{}", if is_undo { "undo-not-inverse" } else { "redo-not-inverse" }, sub), format!("after {} (popped {} step(s), no foreign edits in between) the scoped types differ from their content {} the step\n   got  {}\n   want {}", if is_undo { "undo" } else { "redo" }, popped, if is_undo { "before" } else { "after" }, after, want));
                     }
                 } else {
@@ -410,6 +457,17 @@ pub fn run_undo(prog: &UProgram) -> UResult {
             let (a, b) = (dump_doc(&roots, &doc.transact()), dump_doc(&proots, &peer.transact()));
             cnt.inc("final_convergence_checks");
             if a != b {
+                if crate::util::debug() {
+                    for (name, d) in [("doc", &doc), ("peer", &peer)] {
+                        let txn = d.transact();
+                        eprintln!("--- items of {}", name);
+                        let mut bl = yrs::verif::store_blocks(&txn);
+                        bl.sort_by_key(|b| (b.id.client, b.id.clock));
+                        for b in &bl {
+                            eprintln!("   {}:{}+{} k{} c{} del{} o{:?} r{:?} p{:?} redone{:?} {}", b.id.client, b.id.clock, b.len, b.kind, b.content, b.deleted, b.origin.map(|i| (i.client.get(), i.clock)), b.right_origin.map(|i| (i.client.get(), i.clock)), b.parent, b.redone.map(|i| (i.client.get(), i.clock)), b.text);
+                        }
+                    }
+                }
                 violation = Some(("diverge".into(), format!("after syncing the undo/redo transactions the peer differs\n   {}\n   {} ;; steps: {}", a, b, tail(&log))));
             }
             let _ = StateVector::default();
